@@ -165,3 +165,77 @@ Theorem C01_reset_seeding_is_code : forall d cs e m0 acc egr m',
   calc_of d (ze_p e) cs m' = mk_calc d (ze_p e) cs acc egr (ze_origin e) (ze_dest e).
 Proof. exact reset_seeding_tie. Qed.
 Print Assumptions C01_reset_seeding_is_code.
+
+(* tie to the source, stage 3e: Calculator::optimizeJourney (optimize_journey.cpp) is read AS IT IS NOW by
+   tools/gen_optimize.py (gen/Optimize.v) and executed by the interpreters of Optimize.v.
+   Detection: which journey step is a leg, the range `sequenceStartIdx + 1 .. <= sequenceEndIdx` of its in-between stops
+   and the test that keeps one; the four searches CSL / BTS / GTF / CSS in source order with their outer conditions, the
+   list searched, the stop searched, the look-up in ignoreOptimizationNodes, the case number and the stop recorded.
+   A pass: what is set again at its top (a declaration moved before the `while` is no longer there), the four rewrite
+   blocks with the index arithmetic of their loops over reverseConnections, the stop match, the permission tests, what
+   is pushed / copied / replaced / erased and in which order, `optimizationCase = -1` after BTS; the loop condition; the
+   statements before the loop.  The model's `optimize` computes what the source computes, from any initial values of
+   the function's variables. *)
+Require TrV.Optimize.
+From TrV Require Proofs.OptimizeTie Proofs.OptimizePassTie Proofs.OptimizeLoopTie.
+Module OJ.
+  Import TrV.Optimize TrV.Proofs.OptimizeTie TrV.Proofs.OptimizePassTie TrV.Proofs.OptimizeLoopTie.
+  Theorem C01_optimize_leg_summary_is_code : forall d j,
+    (forall en, js_enter j = Some en -> (1 <= c_seq en)%nat) -> (forall ex, js_exit j = Some ex -> (1 <= c_seq ex)%nat) ->
+    leg_summary d j = leg_summary_code GO.gen_opt_leg d j.
+  Proof. exact leg_summary_tie. Qed.
+  Theorem C01_optimize_cases_order_is_code : forall ign si sj lj, ls_last sj = Some lj ->
+    detect_pair ign si sj = option_map (fun x => (Z.to_nat (fst x), snd x)) (run_cases GO.gen_opt_cases ign si sj).
+  Proof. exact detect_pair_tie. Qed.
+  Theorem C01_optimize_detection_is_code : forall d ign js idx prev, Forall seqs_ok js ->
+    detect d ign js idx prev = detect_code GO.gen_opt_leg GO.gen_opt_cases d ign js idx prev.
+  Proof. exact detect_tie. Qed.
+  Theorem C01_optimize_rewrites_guards_are_code : forall d js used ign m1 kont kb cs n i j,
+    o_journey m1 = js -> o_used m1 = used -> o_ign m1 = ign ->
+    o_from m1 = Z.of_nat i -> o_to m1 = Z.of_nat j -> o_node m1 = Some n -> o_case m1 = Z.of_nat cs -> o_started m1 = true ->
+    o_exit m1 = None \/ exit_reset_in_block d ->
+    (1 <= cs <= 4)%nat -> (i < j)%nat -> Forall seqs_ok js ->
+    forall r, r = orun d GO.gen_opt_leg GO.gen_opt_cases GO.gen_opt_rewrites m1 kont kb ->
+    match model_rewrite d js used ign cs n i j with
+    | PUB => r = OUB
+    | PGo js' used' ign' c => ends_with r kont (js', used', ign', c, true)
+    end.
+  Proof. exact rewrites_tie. Qed.
+  Theorem C01_optimize_pass_is_code : forall d m kont kb, Forall seqs_ok (o_journey m) ->
+    forall r, r = orun d GO.gen_opt_leg GO.gen_opt_cases GO.gen_opt_pass m kont kb ->
+    match model_pass d (o_journey m) (o_used m) (o_ign m) with
+    | PUB => r = OUB
+    | PGo js' used' ign' c => ends_with r kont (js', used', ign', c, true)
+    end.
+  Proof. exact pass_tie. Qed.
+  Theorem C01_optimize_pass_is_model : forall f d js used ign,
+    optimize (S f) d js used ign =
+    match model_pass d js used ign with
+    | PUB => OptUB
+    | PGo js' used' ign' c => if (c >=? 0)%Z then optimize f d js' used' ign' else OptDone js' used'
+    end.
+  Proof. exact optimize_pass. Qed.
+  Theorem C01_optimize_loop_is_code : forall d fuel m, Forall (jin d) (o_journey m) -> GO.gen_opt_continue m = true ->
+    out_of (owhile d GO.gen_opt_leg GO.gen_opt_cases GO.gen_opt_continue GO.gen_opt_pass fuel m)
+    = Some (optimize fuel d (o_journey m) (o_used m) (o_ign m)).
+  Proof. exact while_tie. Qed.
+  Theorem C01_optimize_function_is_code : forall d fuel m, Forall (jin d) (o_journey m) ->
+    out_of (orun_function d GO.gen_opt_leg GO.gen_opt_cases GO.gen_opt_before GO.gen_opt_continue GO.gen_opt_pass fuel m)
+    = Some (optimize fuel d (o_journey m) [] []).
+  Proof. exact optimize_function_tie. Qed.
+  (* for every journey the reverse scan and the rebuild loop produce (RevInv.calc_single_ok) *)
+  Theorem C01_optimize_of_rebuilt_journeys_is_code : forall d s p acc egr bd fuel m,
+    journey_ok_b d s p acc egr bd (o_journey m) = true ->
+    out_of (orun_function d GO.gen_opt_leg GO.gen_opt_cases GO.gen_opt_before GO.gen_opt_continue GO.gen_opt_pass fuel m)
+    = Some (optimize fuel d (o_journey m) [] []).
+  Proof. exact optimize_function_tie_answers. Qed.
+End OJ.
+Print Assumptions OJ.C01_optimize_leg_summary_is_code.
+Print Assumptions OJ.C01_optimize_cases_order_is_code.
+Print Assumptions OJ.C01_optimize_detection_is_code.
+Print Assumptions OJ.C01_optimize_rewrites_guards_are_code.
+Print Assumptions OJ.C01_optimize_pass_is_code.
+Print Assumptions OJ.C01_optimize_pass_is_model.
+Print Assumptions OJ.C01_optimize_loop_is_code.
+Print Assumptions OJ.C01_optimize_function_is_code.
+Print Assumptions OJ.C01_optimize_of_rebuilt_journeys_is_code.
